@@ -231,11 +231,20 @@ var c18PoolStmts = []poolStmt{
 	{"total = add(bump(), 1)", []string{"add", "bump"}, nil},
 	{"import \"strings\"", nil, []string{"strings"}},
 	{"import \"fmt\"", nil, []string{"fmt"}},
-	{"println(strings.ToUpper(name), strings.Repeat(name, 2))", []string{"strings", "name"}, nil},
+	{"println(strings.Repeat(name, 2), strings.Contains(name, \"x\"))", []string{"strings", "name"}, nil},
 	{"fmt.Println(total, name, scale)", []string{"fmt", "total", "name", "scale"}, nil},
 	{"fmt.Printf(\"%d|%s\\n\", total, name)", []string{"fmt", "total", "name"}, nil},
 	{"inc := func() int {\n\ttotal++\n\treturn total\n}", []string{"total"}, []string{"inc"}},
 	{"println(inc(), inc())", []string{"inc"}, nil},
+	{"dec := func() int {\n\ttotal -= 3\n\treturn total\n}", []string{"total"}, []string{"dec"}},
+	{"println(dec(), inc(), dec())", []string{"inc", "dec"}, nil},
+	{"dbl := func(x int) int {\n\treturn x * 2\n}", nil, []string{"dbl"}},
+	{"neg := func(x int) int {\n\treturn 0 - x\n}", nil, []string{"neg"}},
+	{"println(dbl(total), neg(total), dbl(neg(3)))", []string{"dbl", "neg", "total"}, nil},
+	{"import (\n\tsl \"golang.org/x/exp/slices\"\n)", nil, []string{"sl"}},
+	{"println(sl.Contains([]int{1, 2, 3}, 2), sl.Contains([]string{\"a\"}, name))", []string{"sl", "name"}, nil},
+	{"import \"golang.org/x/exp/maps\"", nil, []string{"maps"}},
+	{"println(len(maps.Keys(map[string]int{\"a\": 1, \"b\": 2})))", []string{"maps"}, nil},
 	{"type P struct {\n\tX, Y int\n}", nil, []string{"P"}},
 	{"func (p *P) Sum() int {\n\treturn p.X + p.Y\n}", []string{"P"}, []string{"Sum"}},
 	{"p := &P{1, 2}", []string{"P"}, []string{"p"}},
@@ -273,6 +282,19 @@ var c18PoolFinals = []poolStmt{
 	{"total", []string{"total"}, nil}, {"scale", []string{"scale"}, nil}, {"name + \"!\"", []string{"name"}, nil},
 	{"add(1, 2)", []string{"add"}, nil}, {"b", []string{"b"}, nil}, {"total + 1", []string{"total"}, nil}, {"late", []string{"late"}, nil},
 	{"len(xs)", []string{"xs"}, nil}, {"ok", []string{"ok"}, nil},
+}
+
+// fixed statement sequences about interactions ACROSS calls: function literals that start different
+// chunks at the same position, imports used in a later chunk under an alias / a nested path, typed
+// values left behind and integer loops after them, instances created before the methods of their type
+var c18Scenarios = [][]string{
+	{"total := 10", "inc := func() int {\n\ttotal++\n\treturn total\n}", "dec := func() int {\n\ttotal -= 3\n\treturn total\n}", "println(inc(), dec(), inc())", "dbl := func(x int) int {\n\treturn x * 2\n}", "neg := func(x int) int {\n\treturn 0 - x\n}", "println(dbl(total), neg(total), dbl(neg(3)))", "total"},
+	{"name := \"x\"", "import (\n\tsl \"golang.org/x/exp/slices\"\n)", "import str \"strings\"", "println(sl.Contains([]string{\"x\"}, name))", "import \"golang.org/x/exp/maps\"", "println(str.Repeat(name, 3), len(maps.Keys(map[string]int{\"a\": 1})))", "name + \"!\""},
+	{"total := 0", "scale := 2.5", "if true {\n\tvar u uint8 = 250\n\tu += 10\n\tprintln(u)\n}", "for i := 1; i < 5; i++ {\n\ttotal += 10 / i\n\tprintln(10 / i)\n}", "if x := 300; x > 0 {\n\tprintln(x, x*2)\n}", "println(scale * 2)", "total"},
+	{"type P struct {\n\tX, Y int\n}", "p := &P{1, 2}", "func (p *P) Sum() int {\n\treturn p.X + p.Y\n}", "println(p.Sum())", "func (p *P) Scale(k int) {\n\tp.X *= k\n\tp.Y *= k\n}", "p.Scale(3)", "println(p.Sum(), p.X)", "p.Y"},
+	{"var hits int = 0", "func hit() int {\n\thits += 2\n\treturn hits\n}", "switch hit() {\ncase 2:\n\tprintln(\"two\")\n}", "bonus := 10", "func score() int {\n\treturn hits*100 + bonus\n}", "println(score())", "var late int", "late = score()", "late"},
+	{"xs := []int{3, 1, 2}", "import \"golang.org/x/exp/slices\"", "slices.SortFunc(xs, func(a, b int) bool {\n\treturn a < b\n})", "println(xs[0], xs[1], xs[2])", "slices.SortFunc(xs, func(a, b int) bool {\n\treturn a > b\n})", "println(xs[0], xs[1], xs[2])", "len(xs)"},
+	{"func area(w, h int) int {\n\treturn w * h\n}", "println(area(2, 3))", "func area(w, h, d int) int {\n\treturn w * h * d\n}", "println(area(2, 3, 4))", "func total(xs ...int) int {\n\treturn len(xs)\n}", "println(total(), total(1, 2))", "area(1, 1, 1)"},
 }
 
 func c18PoolProgram(r *rand.Rand) []topItem {
@@ -343,6 +365,11 @@ func checkC18(c *Ctx) {
 		var base *Prog
 		if i < np {
 			items, base = c18Generate(r, id)
+		} else if i-np < len(c18Scenarios) {
+			id = fmt.Sprintf("c18-pool-scn%d", i-np)
+			for _, t := range c18Scenarios[i-np] {
+				items = append(items, topItem{kind: "raw", text: t})
+			}
 		} else {
 			id = fmt.Sprintf("c18-pool-%d", i-np)
 			items = c18PoolProgram(r)
